@@ -148,6 +148,39 @@ pub struct SetOptFlatAccounts {
     pub last: Option<AccountInfo>,
 }
 
+/// `Many` (array) FOLLOWED by an ordinary account: Codama must refuse (`ManyAccountSetsMustComeLast`),
+/// never reorder.
+#[derive(AccountSet, Debug)]
+pub struct SetManyMidAccounts {
+    pub vaults: [Mut<SystemAccount>; 2],
+    pub authority: Signer<SystemAccount>,
+}
+/// `Rest` in the middle (type-checks; at runtime it would swallow the tail).
+#[derive(AccountSet, Debug)]
+pub struct SetRestMidAccounts {
+    pub head: Signer,
+    pub others: Rest<AccountInfo>,
+    pub tail: Mut<AccountInfo>,
+}
+/// Two `Many`s at the end: lowers, both become remaining accounts, in order.
+#[derive(AccountSet, Debug)]
+pub struct SetTwoManyAccounts {
+    pub head: Signer<Mut<AccountInfo>>,
+    pub pair: [AccountInfo; 2],
+    pub others: Rest<Mut<AccountInfo>>,
+}
+/// A `Many` inside a nested struct followed by an account of the OUTER struct.
+#[derive(AccountSet, Debug)]
+pub struct InnerManyAccounts {
+    pub who: Signer,
+    pub list: [Mut<AccountInfo>; 2],
+}
+#[derive(AccountSet, Debug)]
+pub struct SetNestedManyMidAccounts {
+    pub inner: InnerManyAccounts,
+    pub after: AccountInfo,
+}
+
 // ------------------------------------------------------------------------------------------------ instructions
 macro_rules! ix {
     ($ix:ident, $accts:ident) => {
@@ -163,6 +196,10 @@ ix!(SetMany, SetManyAccounts);
 ix!(SetNested, SetNestedAccounts);
 ix!(SetInit, SetInitAccounts);
 ix!(SetOne, SetOneAccounts);
+ix!(SetManyMid, SetManyMidAccounts);
+ix!(SetRestMid, SetRestMidAccounts);
+ix!(SetTwoMany, SetTwoManyAccounts);
+ix!(SetNestedManyMid, SetNestedManyMidAccounts);
 ix!(SetOptFlat, SetOptFlatAccounts);
 ix!(SetEmpty, EmptyAccounts);
 
@@ -183,6 +220,10 @@ pub enum HxIdlInstructionSet {
     SetNested(SetNested),
     SetInit(SetInit),
     SetOne(SetOne),
+    SetManyMid(SetManyMid),
+    SetRestMid(SetRestMid),
+    SetTwoMany(SetTwoMany),
+    SetNestedManyMid(SetNestedManyMid),
     SetOptFlat(SetOptFlat),
     SetEmpty(SetEmpty),
     WithArgs(WithArgs),
@@ -280,6 +321,26 @@ pub fn set_table() -> Vec<SetEntry> {
             "optflat",
             format!("(struct (a (opt (signer 1 (mut 1 info)))) (b (opt (fixed {sys}))) (mid (mut 1 info)) (last (opt info)))"),
             star_frame::star_frame_idl::item_source::<SetOptFlat>(),
+        ),
+        e(
+            "manymid",
+            "(struct (vaults (array (mut 1 info) 2)) (authority (signer 1 info)))".to_string(),
+            star_frame::star_frame_idl::item_source::<SetManyMid>(),
+        ),
+        e(
+            "restmid",
+            "(struct (head (signer 1 info)) (others (rest info)) (tail (mut 1 info)))".to_string(),
+            star_frame::star_frame_idl::item_source::<SetRestMid>(),
+        ),
+        e(
+            "twomany",
+            "(struct (head (signer 1 (mut 1 info))) (pair (array info 2)) (others (rest (mut 1 info))))".to_string(),
+            star_frame::star_frame_idl::item_source::<SetTwoMany>(),
+        ),
+        e(
+            "nestedmanymid",
+            "(struct (inner (struct (who (signer 1 info)) (list (array (mut 1 info) 2)))) (after info))".to_string(),
+            star_frame::star_frame_idl::item_source::<SetNestedManyMid>(),
         ),
         e("empty", "(struct)".to_string(), star_frame::star_frame_idl::item_source::<SetEmpty>()),
     ]
